@@ -57,6 +57,7 @@ def coverage(prop, executed, rejected, tier):
         "valence_atoms_judged": int(total.get("valence_judged", 0)),
         "valence_atoms_unjudged": int(total.get("valence_unjudged", 0)),
         "resolver_side_graphs_monitored": int(total.get("resolver_graphs", 0)),
+        "formulas_by_construction_checked": int(total.get("formula_checked", 0)),
         "resolver_side_drivers": {name: int(total.get("resolver_driver_%d" % k, 0)) for k, name in
                                   enumerate(["resolve_all", "manual", "resolve_iter", "manual then resolve_iter"])},
         "hydrogen_counts_by_construction": int(total.get("hcount_atoms", 0)),
